@@ -1,0 +1,20 @@
+//go:build verif
+
+package ptt
+
+import "github.com/Ptt-official-app/go-pttbbs/ptttype"
+
+// Verification hooks (add-only, compiled only with -tags verif): the unexported pieces of the
+// board read-permission rule, so that an external driver can compare them with every entry point.
+
+func VerifBoardPermStat(user *ptttype.UserecRaw, uid ptttype.UID, board *ptttype.BoardHeaderRaw, bid ptttype.Bid) ptttype.BoardStatAttr {
+	return boardPermStat(user, uid, board, bid)
+}
+
+func VerifGroupOp(user *ptttype.UserecRaw, uid ptttype.UID, board *ptttype.BoardHeaderRaw) bool {
+	return groupOp(user, uid, board)
+}
+
+func VerifIsUBM(userID *ptttype.UserID_t, bm *ptttype.BM_t) bool {
+	return is_uBM(userID, bm)
+}
